@@ -180,7 +180,7 @@ class NCCHReader(TypeReaderCryptoBase):
     """
 
     __slots__ = (
-        '_all_sections', '_assume_decrypted', '_case_insensitive', '_exefs_crypto_ranges', '_exefs_fp',
+        '_all_sections', '_assume_decrypted', '_available', '_case_insensitive', '_exefs_crypto_ranges', '_exefs_fp',
         '_exefs_special_handling', '_key_y', '_lock', '_seed_set_up', '_seed_verify', '_seeded_key_y', 'closed',
         'content_size', 'exefs', 'extra_keyslot', 'flags', 'main_keyslot', 'partition_id', 'product_code', 'program_id',
         'romfs', 'sections', 'version'
@@ -260,6 +260,10 @@ class NCCHReader(TypeReaderCryptoBase):
         self._case_insensitive = case_insensitive
 
         header = self._file.read(0x200)
+
+        # how much of the container the file really holds: the header may declare more, and nothing can come from there
+        self._available = self._file.seek(0, 2) - self._start
+        self._file.seek(self._start + 0x200)
 
         # load the Key Y from the first 0x10 of the signature
         self._key_y = header[0x0:0x10]
@@ -571,6 +575,8 @@ class NCCHReader(TypeReaderCryptoBase):
 
         # the full-decrypted handler is done outside of the thread lock
         if region.section == NCCHSection.FullDecrypted:
+            # the work below is per media unit: do not go over units the file does not hold
+            size = max(min(size, self._available - offset), 0)
             before = offset % 0x200
             aligned_offset = offset - before
             aligned_size = size + before
